@@ -2,7 +2,7 @@
    L0 = Staged.v (reference: stack of staging levels over an ordered map),
    L1 = VLog.v (key table + append-only value log with old links: the mechanism shared by ART and RBT). *)
 From Verif Require Import MemBuf.Model MemBuf.Art MemBuf.ProofsArt MemBuf.ProofsArtIns MemBuf.ProofsArtIns2
-  MemBuf.ProofsArtMap MemBuf.ProofsArtL1 MemBuf.Batched MemBuf.ProofsBatched MemBuf.ProofsBatchedL0 MemBuf.ProofsSeq MemBuf.BatchedUse MemBuf.FlagPreds MemBuf.ProofsFlagDom MemBuf.ProofsKMap MemBuf.ProofsLog MemBuf.ProofsSim MemBuf.ProofsObs
+  MemBuf.ProofsArtMap MemBuf.ProofsArtL1 MemBuf.ProofsArtSeek MemBuf.Batched MemBuf.ProofsBatched MemBuf.ProofsBatchedL0 MemBuf.ProofsSeq MemBuf.BatchedUse MemBuf.FlagPreds MemBuf.ProofsFlagDom MemBuf.ProofsKMap MemBuf.ProofsLog MemBuf.ProofsSim MemBuf.ProofsObs
   MemBuf.ProofsSet MemBuf.ProofsRevert MemBuf.ProofsStep MemBuf.ProofsProps.
 
 (* 1. Refinement.  Over ALL operation sequences — mutators and observers, valid and invalid handles /
@@ -186,6 +186,22 @@ Theorem C08_L2_seek_lower_bound :
   forall lo t, seek_ge lo t = find (fun k => lex_leb lo k) (inorder t).
 Proof. intros lo. exact (proj1 (seek_ge_spec_both lo)). Qed.
 Print Assumptions C08_L2_seek_lower_bound.
+
+(* baseIter.seek (the descent that positions every bounded iterator: matchDeep against the path segment, "all
+   children larger / all smaller" on a mismatch inside the segment, step over the in-place leaf and the smaller
+   children, descend into the equal child, whole-key compare at a leaf): the number of leaves it leaves on the left is
+   the number of keys smaller than the bound, hence the walk starts at the first key >= the bound — for every
+   well-formed tree and every bound, incl. bounds that are prefixes of keys, diverge inside a long prefix, or are
+   longer than every key *)
+Theorem C08_L2_seek_rank_counts_smaller_keys :
+  forall t lo, wf [] t -> seek_rank lo 0 t = length (filter (fun k => lex_ltb k lo) (inorder t)).
+Proof. intros t lo W. exact (proj1 seek_rank_spec_both t [] lo W). Qed.
+Print Assumptions C08_L2_seek_rank_counts_smaller_keys.
+
+Theorem C08_L2_seek_starts_at_lower_bound :
+  forall o lo, wf_root o -> seek_first lo o = find (fun k => lex_leb lo k) (keys_of_tree o).
+Proof. exact seek_first_spec. Qed.
+Print Assumptions C08_L2_seek_starts_at_lower_bound.
 
 (* insert = recursiveInsert with expandLeafIfNeeded (leaf -> node4 over the common prefix, the exhausted key as
    in-place leaf), expandNode (prefix split, the old node re-prefixed from its stored bytes or its minimum leaf),
